@@ -407,9 +407,9 @@ Theorem size_bounded : forall c ops, cfg_ok c -> (length (all (run c ops)) <= ma
 Proof. intros. apply inv_size. apply run_inv; auto. Qed.
 
 Theorem per_sender_bounded : forall c ops a L, cfg_ok c -> afind a (accts (run c ops)) = Some L ->
-  (length (nonces L) <= max_per c)%nat /\ (length (txs L) >= 0)%nat.
+  (length (nonces L) <= max_per c)%nat /\ (forall n, In n (nonces L) <-> afind n (txs L) <> None) /\ NoDup (nonces L).
 Proof.
-  intros c ops a L Hc HL. destruct (inv_lists _ _ (run_inv c ops Hc) _ _ HL) as ((_ & _ & _ & H & _) & _). split; [auto|lia].
+  intros c ops a L Hc HL. destruct (inv_lists _ _ (run_inv c ops Hc) _ _ HL) as ((_ & H2 & H3 & H & _) & _). auto.
 Qed.
 
 Theorem one_tx_per_sender_nonce : forall c ops t1 t2, cfg_ok c ->
